@@ -1,6 +1,6 @@
 (** Machine integers as [N] with explicit bounds.  No proofs that depend on the
     model live here except elementary facts about these operations. *)
-From Coq Require Export NArith List Bool Lia.
+From Coq Require Export NArith PeanoNat Arith List Bool Lia.
 Export ListNotations.
 Open Scope N_scope.
 
